@@ -126,10 +126,13 @@ def run_case(case):
     res.count("steps", tr.phase_counts.get("recorded", 0))
     if err is not None:
         res["aborted"] = err
-        if prop == "C13" and ("place" in err["where"] or "workplace" in err["where"].lower() or "allocate" in err["where"]):
+        if prop == "C13":
             stack = " ".join(err["stack"])
             if "remove_placed_component" in stack or "set_placed" in stack or "check_removing_placed_workplace" in stack:
+                mon = [x for x in tr.monitors if isinstance(x, M.MonC13)][0]
                 mech = "C13/exception-in-placement:%s:%s" % (err["type"], err["where"].split(":")[-1])
+                if mon.split:
+                    mech += ":assembly-split"
                 res.violate("C13", mech, "placement code raised %s: %s at %s" % (err["type"], err["msg"], err["where"]), stack=err["stack"])
         return res
     M.check_status(tr, m.project, spec["sim"]["max_time"], None)
